@@ -71,7 +71,154 @@ def correspond(ctx, corr):
     model = Model("m_drv") if ctx.model_available else None
     r = suite.run_configs(ctx, corr, suite.c15_configs(ctx.thorough), suite.C15_KEYS, model)
     corr.sample({"traces": r.ntraces})
+    closeable_suite(ctx, corr)
+
+
+def library_sequences():
+    """(name, factory) for every sequence the library ships, with neutral arguments"""
+    from dali import sequences as S, address as A
+    from dali.gear import sequences as GS, colour
+    from dali.device import sequences as DS, general as dg, pushbutton
+    from dali.device.helpers import DeviceInstanceTypeMapper
+    from dali.memory import info, oem, location
+    out = [
+        ("sequences.QueryDeviceTypes", lambda: S.QueryDeviceTypes(A.GearShort(3))),
+        ("sequences.QueryGroups", lambda: S.QueryGroups(A.GearShort(3))),
+        ("sequences.SetGroups(short)", lambda: S.SetGroups(A.GearShort(3), {1, 5})),
+        ("sequences.SetGroups(group)", lambda: S.SetGroups(A.GearGroup(2), {1, 5})),
+        ("sequences.Commissioning", lambda: S.Commissioning()),
+        ("sequences.Commissioning(readdress)", lambda: S.Commissioning(available_addresses=[4, 5], readdress=True)),
+        ("sequences.Commissioning(dry_run)", lambda: S.Commissioning(dry_run=True)),
+        ("gear.sequences.SetDT8ColourValueTc", lambda: GS.SetDT8ColourValueTc(A.GearShort(3), 300)),
+        ("gear.sequences.SetDT8TcLimit", lambda: GS.SetDT8TcLimit(
+            A.GearShort(3), list(colour.StoreColourTemperatureTcLimitDTR2)[0], 300)),
+        ("gear.sequences.QueryDT8ColourValue", lambda: GS.QueryDT8ColourValue(
+            A.GearShort(3), list(colour.QueryColourValueDTR)[0])),
+        ("device.sequences.SetEventSchemes", lambda: DS.SetEventSchemes(
+            A.DeviceShort(3), A.InstanceNumber(1), dg.EventScheme.device_instance)),
+        ("device.sequences.SetEventFilters", lambda: DS.SetEventFilters(
+            A.DeviceShort(3), A.InstanceNumber(1), pushbutton.InstanceEventFilter(5))),
+        ("device.sequences.QueryEventFilters", lambda: DS.QueryEventFilters(
+            A.DeviceShort(3), A.InstanceNumber(1), pushbutton.InstanceEventFilter)),
+        ("device.sequences.query_input_value", lambda: DS.query_input_value(A.DeviceShort(3), A.InstanceNumber(1), 10)),
+        ("DeviceInstanceTypeMapper.autodiscover", lambda: DeviceInstanceTypeMapper().autodiscover([1, 2])),
+        ("memory read (GTIN)", lambda: info.GTIN.read(A.GearShort(3))),
+        ("memory read_all (bank 0)", lambda: info.BANK_0.read_all(A.GearShort(3))),
+        ("memory write (OEM GTIN)", lambda: oem.ManufacturerGTIN.write(A.GearShort(3), 12345)),
+        ("memory latch", lambda: location.MemoryBank.latch(oem.BANK_1, A.GearShort(3))),
+    ]
+    return out
+
+
+def closeable_suite(ctx, corr):
+    """What run_sequence's clean-up relies on: after a cancellation, a lost gateway or a raising progress callback
+    the driver calls seq.close() and expects the generator to be CLOSED and close() to return.  Every sequence the
+    library ships is advanced k = 0, 1, 2, ... yields (answers: a conforming 'yes/1' frame, or silence) and then
+    closed / thrown a CancelledError: close() returns None, the generator is finished, nothing more is yielded.
+    (Strengthening after seeded round 6: a sequence that yields from a `finally` turns the caller's cancellation
+    into RuntimeError('generator ignored GeneratorExit') and stays suspended.)"""
+    import asyncio
+    import inspect
+    from dali import command, frame
+    n = 0
+    for name, fac in library_sequences():
+        for answers in ("silence", "yes"):
+            k = 0
+            while k < (400 if ctx.thorough else 120):
+                try:
+                    g = fac()
+                except Exception:   # noqa - neutral arguments not accepted by this tree: not this suite's business
+                    break
+                if not inspect.isgenerator(g):
+                    break
+                done = False
+                resp = None
+                try:
+                    for j in range(k):
+                        obj = next(g) if j == 0 else g.send(resp)
+                        resp = None
+                        if isinstance(obj, command.Command) and obj.response is not None:
+                            resp = obj.response(frame.BackwardFrame(1) if answers == "yes" else None)
+                except StopIteration:
+                    done = True
+                except Exception:   # noqa - the sequence gave up on this answer stream: also an end
+                    done = True
+                if done:
+                    break
+                for how in ("close", "throw"):
+                    if how == "throw" and k == 0:
+                        continue        # nothing is running yet: run_sequence has not started the generator
+                    if how == "throw":
+                        # a second, identical prefix for the throw variant
+                        g2 = fac()
+                        resp = None
+                        try:
+                            for j in range(k):
+                                obj = next(g2) if j == 0 else g2.send(resp)
+                                resp = None
+                                if isinstance(obj, command.Command) and obj.response is not None:
+                                    resp = obj.response(frame.BackwardFrame(1) if answers == "yes" else None)
+                        except Exception:   # noqa
+                            continue
+                        gg = g2
+                    else:
+                        gg = g
+                    out = "closed"
+                    try:
+                        if how == "close":
+                            r = gg.close()
+                            if r is not None:
+                                out = "close() returned %r" % (r,)
+                        else:
+                            try:
+                                y = gg.throw(asyncio.CancelledError())
+                                out = "yielded %r after CancelledError was thrown in" % (y,)
+                            except asyncio.CancelledError:
+                                pass
+                            except StopIteration:
+                                out = "swallowed the CancelledError"
+                    except BaseException as e:  # noqa
+                        out = "%s(%s)" % (type(e).__name__, e)
+                    if out == "closed" and inspect.getgeneratorstate(gg) != inspect.GEN_CLOSED:
+                        out = "generator still " + inspect.getgeneratorstate(gg)
+                    if out != "closed":
+                        corr.violate("close:library-sequence", {"sequence": name, "answers": answers,
+                                                                "yields consumed": k, "ended by": how},
+                                     "closed: close() returns, the generator is finished", out,
+                                     "run_sequence closes the sequence when its caller is cancelled or the gateway "
+                                     "is lost; a sequence that cannot be closed at this point turns that into "
+                                     "RuntimeError and stays suspended")
+                    n += 1
+                k += 1
+        corr.nontrivial(("closeable", name))
+    corr.count("library sequences closed at every yield", n)
 
 
 def replay(ctx, payload):
+    inp = (payload.get("failure") or {}).get("input")
+    if isinstance(inp, dict) and "sequence" in inp:
+        import inspect
+        from dali import command, frame
+        fac = dict(library_sequences())[inp["sequence"]]
+        g = fac()
+        resp = None
+        for j in range(inp["yields consumed"]):
+            obj = next(g) if j == 0 else g.send(resp)
+            resp = None
+            if isinstance(obj, command.Command) and obj.response is not None:
+                resp = obj.response(frame.BackwardFrame(1) if inp["answers"] == "yes" else None)
+        try:
+            if inp["ended by"] == "close":
+                g.close()
+            else:
+                import asyncio
+                try:
+                    g.throw(asyncio.CancelledError())
+                except asyncio.CancelledError:
+                    pass
+            out = "closed" if inspect.getgeneratorstate(g) == inspect.GEN_CLOSED else inspect.getgeneratorstate(g)
+        except BaseException as e:  # noqa
+            out = "%s(%s)" % (type(e).__name__, e)
+        print("sequence", inp["sequence"], "after", inp["yields consumed"], "yields,", inp["ended by"], "->", out)
+        return out != "closed"
     return suite.replay_failure(payload)
